@@ -281,4 +281,36 @@ example : ∃ (chains : List Chain) (b : Buf),
    by intro ch hc s hs; simp at hc; subst hc; simp at hs; subst hs; exact Or.inl ⟨_, rfl⟩,
    by decide, rfl, by rfl⟩
 
+/-! ## in/out subtables refine list operations -/
+
+/-- **C17_inplace_zipper** (`_partial`: the current-insertion block of the insertion subtable).
+    `InsS.insCurrentBody` — `[copy_glyph]; output_glyph × c; [skip_glyph]; move_to(end | end + c)` on the in/out
+    buffer of the shared model — is a list insertion: for every buffer satisfying the representation invariant
+    and holding at least one glyph, every insertion list whose `c` glyphs are present, both placements and both
+    cursor rules, there is no panic and either an allocation was refused (buffer marked unsuccessful) or the
+    logical glyph sequence `out[0..out_len) ++ info[idx..len)` is the old one with the `c` glyphs inserted before
+    / after the current glyph, each inheriting the current glyph's record; nothing lost or duplicated.
+    Uses the zipper specs of Lemmas/BufZipper.lean; the two generated variants of buffer.rs it needs
+    (`ensureGrowOnly`, `moveToRewindReversed` — the repairs of D6 and D5) are discharged by `decide` here, so a
+    regression of either breaks this theorem.
+    Full statement (not proved): the same for the marked-insertion block (`InsS.insMarked`: `move_to(mark)` first)
+    and for the ligature transition (`ligLoop`: `move_to` to each component, `replace_glyph`, deletions). -/
+theorem C17_inplace_zipper_partial (glyphs : Nat → Option Nat) (start c : Nat) (before dontAdvance : Bool)
+    (b : RbModel.Buf) (hinv : RbModel.Buf.Inv b) (hne : 0 < RbModel.Buf.total b)
+    (hgl : ∀ k, k < c → (glyphs (start + k)).isSome = true) :
+    ∃ b' x, RbModel.Buf.srcOf b = some x ∧ InsS.insCurrentBody glyphs start c before dontAdvance b = .ok b' ∧
+      (b'.successful = false ∨
+       (RbModel.Buf.Inv b' ∧ b'.successful = b.successful ∧ RbModel.Buf.total b' = RbModel.Buf.total b + c ∧
+        b'.outLen = (if dontAdvance then b.outLen else b.outLen + c) ∧
+        ∀ q, RbModel.Buf.seq b' q =
+          RbModel.Buf.insertedAt b (if b.idx < b.len ∧ before = false then b.outLen + 1 else b.outLen)
+            glyphs start c x q)) :=
+  RbModel.Buf.insCurrentBody_zipper glyphs start c before dontAdvance b hinv hne hgl (by decide) (by decide)
+
+/-- non-vacuity: two glyphs, one already on the output side, in place (no separate output yet). -/
+example : ∃ b : RbModel.Buf, RbModel.Buf.Inv b ∧ 0 < RbModel.Buf.total b ∧ b.idx < b.len :=
+  ⟨{ info := [{ gid := 1 }, { gid := 2, cluster := 1 }], out := [{}, {}], idx := 1, len := 2, outLen := 1,
+     haveOutput := true },
+   ⟨by decide, by decide, by decide, (fun h => by simp at h), (fun _ => by decide), rfl⟩, by decide, by decide⟩
+
 end RbModel.Morx
